@@ -97,6 +97,10 @@ func (v *vC08Net) spLink(l *channelLink, ch int, place string) {
 	if l == nil {
 		l = v.bobLink(ch)
 	}
+	if strings.HasPrefix(place, "sent_") {
+		// "the message has left AND arrived": let the peer dequeue it
+		time.Sleep(40 * time.Millisecond)
+	}
 	v.rec.add("x", "stoppoint", v.spKey, v.spTarget, v.spVar)
 	go v.spFault(ch)
 	// The handler goes on once the link has been told to stop (quit closed),
@@ -385,7 +389,10 @@ func vC08StopPoints(t *testing.T, out *vWriter, root *vrng) {
 			id := fmt.Sprintf("%s/%s/%s#%d", sp.Scenario, sp.Variant, sp.Key, sp.K)
 			switch id {
 			case "unknown_ac/flap/2:fwd#1", "unknown_ac/restartflap/2:fwd#1",
-				"unknown_ca/flap/1:fwd#1", "unknown_ca/restartflap/1:fwd#1":
+				"unknown_ca/flap/1:fwd#1", "unknown_ca/restartflap/1:fwd#1",
+				// the revoke_and_ack has been delivered, the commit_sig owed
+				// in return has not been sent yet (C08-F3)
+				"ok_ac/flap/1:sent_rev#1":
 
 				pick = append(pick, sp)
 			}
